@@ -27,11 +27,13 @@ used = {}
 for pid in sorted(TEXT):
     if pid not in props: continue
     cfg = props[pid]; text, note, ref = TEXT[pid]
-    used.setdefault(cfg["engine"], []).append(pid)
+    engs = cfg["engine"] if isinstance(cfg["engine"], list) else [cfg["engine"]]
+    for e_ in engs:
+        used.setdefault(e_, []).append(pid)
     man["checks"].append({
      "property_id": pid, "quick_cmd": "./check %s --tier quick" % pid, "thorough_cmd": "./check %s --tier thorough" % pid,
      "evidence_file": "/verif/evidence/%s.json" % pid, "replay_cmd_template": "./check %s --replay {path}" % pid,
-     "engine": cfg["engine"], "level_claimed": {"category": cfg["level"], "text": text, "design_ref": ref},
+     "engine": "+".join(engs), "level_claimed": {"category": cfg["level"], "text": text, "design_ref": ref},
      "level_note": note, "technique": cfg.get("technique", "deterministic simulation with fault injection (seeded decision tape, simulated faults/schedule, reference-model oracle)")})
 for e, ps in sorted(used.items()):
     man["engines"].append({"name": e, "path": ENGINES.get(e, ("sim/"+e,))[0], "serves_properties": ps, "kind_free_text": ENGINES.get(e, (0, props[ps[0]].get("engine_text", "compsim: one real component in a synctest bubble against simulator-owned counterparts")))[1]})
